@@ -182,7 +182,9 @@ def make_core(env):
         def translate_uri(self, uri):
             k = env.index_of_uri(uri)
             kind = env.kinds[k]
-            if kind == "nouri":
+            if kind == "nouri" or getattr(env, "flaky_now", False):
+                # a flaky refusal takes the real PlaybackProvider.change_track path: the URI
+                # cannot be translated this time
                 return None
             if kind == "raises":
                 msg = "scripted backend failure"
@@ -195,9 +197,13 @@ def make_core(env):
             flaky = env.script.pop(0) if env.script else False
             ok = env.kinds[k] == "playable" and not flaky
             env.attempts.append((k, ok))
-            if flaky or env.kinds[k] == "refuse":
+            if env.kinds[k] == "refuse" or (flaky and env.kinds[k] == "raises"):
                 return False
-            return super().change_track(track)
+            env.flaky_now = flaky
+            try:
+                return super().change_track(track)
+            finally:
+                env.flaky_now = False
 
         # faults outside the modelled environment (monitor-only stage core_faulty.py):
         # env.fault = {"play": (exception class, set of track indices), "prepare_change": class}
@@ -207,6 +213,25 @@ def make_core(env):
                 env.tick_backend()
                 raise f[0]("scripted play() failure")
             return super().play()
+
+        def _refused(self, name):
+            # env.fault = {"refuse": {"resume", "pause", "stop", "seek"}}: the provider answers False
+            if name in getattr(env, "fault", {}).get("refuse", ()):
+                env.tick_backend()
+                return True
+            return False
+
+        def resume(self):
+            return False if self._refused("resume") else super().resume()
+
+        def pause(self):
+            return False if self._refused("pause") else super().pause()
+
+        def stop(self):
+            return False if self._refused("stop") else super().stop()
+
+        def seek(self, time_position):
+            return False if self._refused("seek") else super().seek(time_position)
 
         def prepare_change(self):
             f = getattr(env, "fault", {}).get("prepare_change")
